@@ -359,6 +359,22 @@ func c05SpecialCheck(c c05Special) vfResult {
 				}
 			}
 		}
+	case "file-of-34MiB":
+		// whole-file detection (limit 0) of files beyond 32 MiB whose verdict hangs on their last bytes
+		for i, content := range [][]byte{append(vfBig("filler", 34<<20), 0x01, '\n'), append(vfBig("json-array", 34<<20), '\n'), append(vfBig("json-array", 34<<20), " x"...)} {
+			SetLimit(0)
+			want := Detect(content)
+			p := filepath.Join(vfScratchDir(), "c05-huge.dat")
+			if err := os.WriteFile(p, content, 0o644); err != nil {
+				return vfResult{Skip: "no-space-for-34MiB-file"}
+			}
+			got, err := DetectFile(p)
+			os.Remove(p)
+			if err != nil || !c05Same(got, want) {
+				r.Err = fmt.Errorf("DetectFile without limit on a %d-byte file (case %d) = (%s, %v), Detect on its bytes = %s", len(content), i, vfChainStr(got), err, vfChainStr(want))
+				return r
+			}
+		}
 	case "limit-near-2^32":
 		// limits just below 2^32 through the reader (DetectReader allocates that much: run once)
 		for _, lim := range []uint32{0xffffffff, 0xfffff001} {
@@ -398,6 +414,10 @@ func TestVerif_C05(t *testing.T) {
 				}
 			}
 			cases = append(cases, c05Special{Kind: "procfs"}, c05Special{Kind: "slice-of-4GiB"})
+			if vfShard() == 2%vfNShards() {
+				cases = append(cases, c05Special{Kind: "limit-near-2^32", Skip: -34})
+				cases[len(cases)-1].Kind = "file-of-34MiB"
+			}
 			if vfShard() == 0 {
 				cases = append(cases, c05Special{Kind: "limit-near-2^32", X: vfB(`{"type":"Feature","geometry":null}`)})
 			}
@@ -405,7 +425,7 @@ func TestVerif_C05(t *testing.T) {
 				if i%vfNShards() != vfShard() && c.Kind == "seekable-at-offset" {
 					continue
 				}
-				if c.Kind != "seekable-at-offset" && c.Kind != "limit-near-2^32" && vfShard() != 1%vfNShards() {
+				if c.Kind != "seekable-at-offset" && c.Kind != "limit-near-2^32" && c.Kind != "file-of-34MiB" && vfShard() != 1%vfNShards() {
 					continue
 				}
 				r := c05SpecialCheck(c)
